@@ -24,6 +24,9 @@ EXPLANATION = (
     ' R13.7 also bounds the saturation and lightness that parse_color_hsl hands to the conversion: the range of'
     ' each (last assignment, min()/max() against constants, comparison clamps, division by a positive constant)'
     ' must be exactly [0, 1].'
+    ' R13.6 also compares the three branch formulas of the hue getter symbolically (min/max opaque) with'
+    ' (g-b)/6D, 1/3 + (b-r)/6D and 2/3 + (r-g)/6D for the largest channel red, green, blue: the h/s/l setters'
+    ' read the colour back through this getter.'
 )
 TECHNIQUE = (
     "static analysis (no execution): 147-keyword if-chain vs CSS table incl. shadowing; hex layouts by partial evaluation on marker strings; channel bit-field layouts evaluated symbolically; regex-vs-converter language inclusion"
